@@ -206,7 +206,26 @@ def rows_equal(got, exp, time_tol=0.0, strip_quotes=False):
                 return False
         return True
 
-    return perfect_matching(got, exp, compatible)
+    # rows can only match rows with the same discrete part: match class by class; inside a class try the order by time first
+    # (always right for exact comparison and for well-separated times), the full bipartite matching only for small classes
+    import collections
+
+    ga, ea = collections.defaultdict(list), collections.defaultdict(list)
+    for r in got:
+        ga[(frozenset(r), disc(r))].append(r)
+    for r in exp:
+        ea[(frozenset(r), disc(r))].append(r)
+    if {k: len(v) for k, v in ga.items()} != {k: len(v) for k, v in ea.items()}:
+        return False
+    for k, gs in ga.items():
+        es = ea[k]
+        gs, es = sorted(gs, key=cont), sorted(es, key=cont)
+        if all(compatible(g, e) for g, e in zip(gs, es)):
+            continue
+        # (beyond 600 equal-discrete rows the time order decides: in the generated large documents such rows are >= 125 ms apart)
+        if len(gs) > 600 or not perfect_matching(gs, es, compatible):
+            return False
+    return True
 
 
 def perfect_matching(A, B, compatible):
@@ -263,8 +282,8 @@ def check_doc(doc, lab, ctx):
 
     lines = ro.render(doc)
     den = ro.denotation(doc)
-    case = dict(kind="doc", label=lab, lines=lines)
-    site = dict(route="file")
+    case = dict(kind="doc", label=lab, lines=lines if len(lines) < 200 else lines[:60] + ["..."] + lines[-20:])
+    site = dict(route="file") if not lab.get("large") else dict(route="file", large=True)
     ctx.transition()
     try:
         m = OsuMap.read(list(lines))
@@ -480,9 +499,37 @@ def _docs(tier):
     return _DOCS[tier]
 
 
+# size: documents beyond any small-array fast path, table capacity or chunk boundary (n objects, keys)
+LARGE = dict(quick=[(40, 4), (300, 7), (2500, 10)], thorough=[(17, 4), (40, 4), (300, 7), (1025, 18), (2500, 10), (10000, 7)])
+
+
+def large_doc(n, keys):
+    """n objects 125 ms apart (every 7th a hold), a tempo change every 50 objects, an SV every 20, a sample event every 100;
+    hitsound fields vary with the index so that rows cannot be exchanged unnoticed."""
+    doc = ro.default_doc()
+    doc["keys"] = keys
+    doc["objs"], doc["tps"], doc["samples"] = [], [], []
+    bls = ["500", "333.333333333333", "250.5", "1000"]
+    for i in range(n):
+        t = 125 * i
+        col = (i * 5) % keys
+        o = dict(kind="hit", col=col, xmode=("centre", "lo", "hi")[i % 3], time=t, hs=(i % 8) * 2, ss=i % 4, ads=(i // 4) % 4, ci=i % 3, vol=i % 101, file="" if i % 11 else f"f{i}.wav")
+        if i % 7 == 3:
+            o.update(kind="hold", end=t + 100)
+        doc["objs"].append(o)
+        if i % 50 == 0:
+            doc["tps"].append(dict(time=str(t), bl=bls[(i // 50) % 4], meter=4 if i % 100 == 0 else 3, ss=1 + (i // 50) % 3, si=(i // 50) % 5, vol=40 + (i // 50) % 60, un=1, fx=(i // 50) % 2))
+        if i % 20 == 7:
+            doc["tps"].append(dict(time=str(t), bl=repr(-100.0 / (0.5 + (i % 9) * 0.25)), meter=4, ss=1, si=0, vol=50, un=0, fx=0))
+        if i % 100 == 42:
+            doc["samples"].append((t, f"e{i}.wav", 30 + i % 70))
+    return doc
+
+
 def roots(tier, seed):
     n = len(_docs(tier))
     r = [dict(kind="docs", start=s, stop=min(n, s + CHUNK)) for s in range(0, n, CHUNK)]
+    r += [dict(kind="large", n=k, keys=ky) for k, ky in LARGE[tier]]
     r += [dict(kind="table", keys=k) for k in range(1, 19)]
     ni = len(inmem_cases(tier))
     r += [dict(kind="inmem", keys=k, start=s, stop=min(ni, s + 100)) for k in KEYS for s in range(0, ni, 100)]
@@ -502,6 +549,10 @@ def explore(root, tier, ctx):
             if (i % 997 == 0 or (len(devs) == 2 and len(ctx.samples) < 1)) and len(ctx.samples) < 2:
                 ctx.sample(dict(label=lab, lines=ro.render(doc)[-8:]))
             check_doc(doc, lab, ctx)
+    elif root["kind"] == "large":
+        ctx.case()
+        ctx.state(("large", root["n"], root["keys"]), nontrivial=True)
+        check_doc(large_doc(root["n"], root["keys"]), dict(devs=[], elems=[], large=[root["n"], root["keys"]]), ctx)
     elif root["kind"] == "table":
         check_table(root["keys"], ctx)
     elif root["kind"] == "inmem":
@@ -522,6 +573,9 @@ def replay(case, ctx):
     else:
         # rebuild the document from its label so that the denotation is known by construction
         lab = case["label"]
+        if lab.get("large"):
+            check_doc(large_doc(*lab["large"]), lab, ctx)
+            return
         devs = []
         for d in lab["devs"]:
             a, _, v = d.partition("=")
